@@ -556,3 +556,181 @@ Qed.
 (* non-positive sample counts: numpy raises for a negative count (modelled as None) *)
 Lemma axis_none (l r s : Q) : axis l r s = None <-> (axis_n l r s < 0)%Z.
 Proof. unfold axis. destruct (axis_n l r s <? 0)%Z eqn:E; split; intros H; try discriminate; try reflexivity; lia. Qed.
+
+(* ================================================================== large grids: blocks, samples, single points *)
+
+(* ------------------------------------------------------------------ blocks *)
+Lemma chunks_fuel_nil {A} (fuel step : nat) : @chunks_fuel A fuel step [] = [].
+Proof. destruct fuel; reflexivity. Qed.
+
+Lemma chunks_fuel_cons {A} (f step : nat) (x : A) (l : list A) :
+  chunks_fuel (S f) step (x :: l) = firstn step (x :: l) :: chunks_fuel f step (skipn step (x :: l)).
+Proof. reflexivity. Qed.
+
+Lemma chunks_fuel_concat {A} (step : nat) : (0 < step)%nat ->
+  forall fuel (l : list A), (length l <= fuel)%nat -> concat (chunks_fuel fuel step l) = l.
+Proof.
+  intros Hs. induction fuel as [|f IH]; intros l Hl.
+  - destruct l; [reflexivity | simpl in Hl; lia].
+  - destruct l as [|x l']; [reflexivity|].
+    rewrite chunks_fuel_cons. cbn [concat]. rewrite IH; [apply firstn_skipn|].
+    rewrite skipn_length. cbn [length] in Hl |- *. lia.
+Qed.
+
+Theorem chunks_concat {A} (step : nat) (l : list A) : (0 < step)%nat -> concat (chunks step l) = l.
+Proof. intros Hs. apply chunks_fuel_concat; [exact Hs | apply Nat.le_refl]. Qed.
+
+Lemma chunks_fuel_blocks {A} (step : nat) : (0 < step)%nat ->
+  forall fuel (l : list A), Forall (fun b => b <> [] /\ (length b <= step)%nat) (chunks_fuel fuel step l).
+Proof.
+  intros Hs. induction fuel as [|f IH]; intros l; [constructor|].
+  destruct l as [|x l']; [constructor|].
+  rewrite chunks_fuel_cons. constructor; [|apply IH].
+  split; [destruct step; [lia | discriminate] | apply firstn_le_length].
+Qed.
+
+(* number of blocks = ceil(length / step): the partial last block counts *)
+Lemma chunks_fuel_count {A} (step : nat) : (0 < step)%nat ->
+  forall fuel (l : list A), (length l <= fuel)%nat -> length (chunks_fuel fuel step l) = ((length l + (step - 1)) / step)%nat.
+Proof.
+  intros Hs. induction fuel as [|f IH]; intros l Hl.
+  - destruct l; [|simpl in Hl; lia]. simpl. symmetry. apply Nat.div_small. lia.
+  - destruct l as [|x l']; [simpl; symmetry; apply Nat.div_small; lia|].
+    rewrite chunks_fuel_cons. cbn [length]. rewrite IH by (rewrite skipn_length; cbn [length] in Hl |- *; lia).
+    rewrite skipn_length. cbn [length]. set (n := S (length l')). assert (Hn : (1 <= n)%nat) by (subst n; lia).
+    destruct (Nat.le_gt_cases n step) as [Hle|Hgt].
+    + replace (n - step)%nat with O by lia. rewrite Nat.div_small by lia.
+      rewrite <- (Nat.div_unique (n + (step - 1)) step 1 (n - 1)); lia.
+    + replace (n + (step - 1))%nat with ((n - step + (step - 1)) + 1 * step)%nat by lia.
+      rewrite Nat.div_add by lia. lia.
+Qed.
+
+Theorem chunks_count {A} (step : nat) (l : list A) : (0 < step)%nat ->
+  length (chunks step l) = ((length l + (step - 1)) / step)%nat.
+Proof. intros Hs. apply chunks_fuel_count; [exact Hs | apply Nat.le_refl]. Qed.
+
+(* ---- every descriptor distributes over concatenation of grids *)
+Lemma aso_app ens radii w (g1 g2 : list qv) : aso ens radii w (g1 ++ g2) = aso ens radii w g1 ++ aso ens radii w g2.
+Proof. apply map_app. Qed.
+
+Lemma aso_blocks_concat ens radii w (blocks : list (list qv)) : aso_blocks ens radii w blocks = aso ens radii w (concat blocks).
+Proof.
+  unfold aso_blocks. induction blocks as [|b r IH]; [reflexivity|].
+  cbn [flat_map concat]. now rewrite aso_app, IH.
+Qed.
+
+Lemma nearest_blocks_concat atoms cut (blocks : list (list qv)) :
+  nearest_blocks atoms cut blocks = map (nearest atoms cut) (concat blocks).
+Proof.
+  unfold nearest_blocks. induction blocks as [|b r IH]; [reflexivity|].
+  cbn [flat_map concat]. now rewrite map_app, IH.
+Qed.
+
+Lemma filter_idx_from_app {A} (p : A -> bool) (l1 l2 : list A) : forall i,
+  filter_idx_from p i (l1 ++ l2) = filter_idx_from p i l1 ++ filter_idx_from p (i + Z.of_nat (length l1)) l2.
+Proof.
+  induction l1 as [|x l1 IH]; intros i.
+  - simpl. now rewrite Z.add_0_r.
+  - cbn [app filter_idx_from length]. rewrite IH.
+    replace (i + 1 + Z.of_nat (length l1))%Z with (i + Z.of_nat (S (length l1)))%Z by lia.
+    destruct (p x); reflexivity.
+Qed.
+
+Lemma prune_blocks_concat (q : qv -> bool) (blocks : list (list qv)) : forall off,
+  prune_blocks q off blocks = filter_idx_from q off (concat blocks).
+Proof.
+  induction blocks as [|b r IH]; intros off; [reflexivity|].
+  cbn [prune_blocks concat]. now rewrite filter_idx_from_app, IH.
+Qed.
+
+Lemma aif_from_app ens radii values idx w (g1 g2 : list qv) : forall k,
+  aif_from ens radii values idx w k (g1 ++ g2) =
+  aif_from ens radii values idx w k g1 ++ aif_from ens radii values idx w (k + length g1) g2.
+Proof.
+  induction g1 as [|g g1 IH]; intros k.
+  - simpl. now rewrite Nat.add_0_r.
+  - cbn [app aif_from length]. rewrite IH. replace (S k + length g1)%nat with (k + S (length g1))%nat by lia. reflexivity.
+Qed.
+
+Lemma aif_blocks_concat ens radii values idx w (blocks : list (list qv)) : forall k,
+  aif_blocks ens radii values idx w k blocks = aif_from ens radii values idx w k (concat blocks).
+Proof.
+  induction blocks as [|b r IH]; intros k; [reflexivity|].
+  cbn [aif_blocks concat]. now rewrite aif_from_app, IH.
+Qed.
+
+(* walking the grid in blocks of ANY length step > 0 (partial last block included) = evaluating it in one piece *)
+Theorem blockwise (step : nat) (grid : list qv) : (0 < step)%nat ->
+  (forall ens radii w, aso_blocks ens radii w (chunks step grid) = aso ens radii w grid) /\
+  (forall atoms cut, nearest_blocks atoms cut (chunks step grid) = map (nearest atoms cut) grid) /\
+  (forall q, prune_blocks q 0 (chunks step grid) = prune_with q grid) /\
+  (forall ens radii values idx w, aif_blocks ens radii values idx w 0 (chunks step grid) = aif ens radii values idx w grid).
+Proof.
+  intros Hs. repeat split; intros.
+  - now rewrite aso_blocks_concat, chunks_concat.
+  - now rewrite nearest_blocks_concat, chunks_concat.
+  - now rewrite prune_blocks_concat, chunks_concat.
+  - now rewrite aif_blocks_concat, chunks_concat.
+Qed.
+
+(* the values at a selection of grid points = the descriptor of the selected points (what a sampled comparison of a
+   large grid checks) *)
+Theorem aso_sample ens radii w (grid : list qv) (ks : list nat) : Forall (fun k => (k < length grid)%nat) ks ->
+  map (fun k => nth k (aso ens radii w grid) 0) ks = aso ens radii w (map (fun k => nth k grid qvz) ks).
+Proof.
+  intros H. unfold aso at 2. rewrite map_map. apply map_ext_in. intros k Hk.
+  rewrite Forall_forall in H. now rewrite aso_nth by (apply H; exact Hk).
+Qed.
+
+Theorem nearest_sample atoms cut (grid : list qv) (ks : list nat) : Forall (fun k => (k < length grid)%nat) ks ->
+  map (fun k => nth k (map (nearest atoms cut) grid) (-1)%Z) ks = map (nearest atoms cut) (map (fun k => nth k grid qvz) ks).
+Proof.
+  intros H. rewrite map_map. apply map_ext_in. intros k Hk. rewrite Forall_forall in H.
+  rewrite (nth_indep _ (-1)%Z (nearest atoms cut qvz)) by (rewrite map_length; apply H; exact Hk).
+  apply (map_nth (nearest atoms cut)).
+Qed.
+
+(* ------------------------------------------------------------------ grid_at *)
+Lemma mesh_at_correct (xs ys zs : list Q) (n : nat) : (n < length (mesh xs ys zs))%nat ->
+  mesh_at xs ys zs (Z.of_nat n) = Some (nth n (mesh xs ys zs) qvz).
+Proof.
+  rewrite mesh_length. intros Hn. unfold mesh_at.
+  remember (length xs) as nx eqn:Enx. remember (length ys) as ny eqn:Eny. remember (length zs) as nz eqn:Enz.
+  assert (Hz : (0 < nz)%nat) by (destruct nz; [rewrite !Nat.mul_0_r in Hn; lia | lia]).
+  assert (Hx : (0 < nx)%nat) by (destruct nx; [rewrite Nat.mul_0_l, Nat.mul_0_r in Hn; lia | lia]).
+  assert (E : ((0 <=? Z.of_nat n) && (Z.of_nat n <? Z.of_nat ny * (Z.of_nat nx * Z.of_nat nz)))%Z = true).
+  { rewrite <- !Nat2Z.inj_mul. apply andb_true_intro. split; lia. }
+  rewrite E.
+  rewrite <- !Nat2Z.inj_div, <- !Nat2Z.inj_mod, !Nat2Z.id.
+  set (k := (n mod nz)%nat). set (m := (n / nz)%nat). set (i := (m mod nx)%nat). set (j := (m / nx)%nat).
+  assert (E1 : n = (nz * m + k)%nat) by (apply Nat.div_mod; lia).
+  assert (E2 : m = (nx * j + i)%nat) by (apply Nat.div_mod; lia).
+  assert (Hk : (k < nz)%nat) by (apply Nat.mod_upper_bound; lia).
+  assert (Hi : (i < nx)%nat) by (apply Nat.mod_upper_bound; lia).
+  clearbody k m i j. subst m.
+  assert (Hj : (j < ny)%nat).
+  { destruct (Nat.lt_ge_cases j ny) as [H|H]; [exact H | exfalso].
+    assert (nx * ny <= nx * j)%nat by (apply Nat.mul_le_mono_l; exact H).
+    assert (nz * (nx * ny) <= nz * (nx * j + i))%nat by (apply Nat.mul_le_mono_l; lia).
+    replace (ny * (nx * nz))%nat with (nz * (nx * ny))%nat in Hn by ring. lia. }
+  replace n with ((j * nx + i) * nz + k)%nat at 1 by (rewrite E1; ring).
+  subst nx ny nz. apply f_equal. symmetry. apply mesh_nth; assumption.
+Qed.
+
+Theorem grid_at_correct (r1 r2 : qv) (pad s : Q) (g : list qv) (n : nat) :
+  rectangular_grid r1 r2 pad s = Some g -> (n < length g)%nat ->
+  grid_at r1 r2 pad s (Z.of_nat n) = Some (nth n g qvz) /\ grid_count r1 r2 pad s = Some (Z.of_nat (length g)).
+Proof.
+  destruct r1 as [[a1 a2] a3], r2 as [[b1 b2] b3]. unfold rectangular_grid, grid_at, grid_count, grid_dims.
+  destruct (axis (a1 - pad) (b1 + pad) s) as [xs|]; [|discriminate].
+  destruct (axis (a2 - pad) (b2 + pad) s) as [ys|]; [|discriminate].
+  destruct (axis (a3 - pad) (b3 + pad) s) as [zs|]; [|discriminate].
+  intros E Hn. injection E as <-. split; [apply mesh_at_correct; exact Hn|].
+  rewrite mesh_length. f_equal. lia.
+Qed.
+
+(* a box grown around ONE point c (both corners equal): floor(2*padding/spacing) + 1 samples on the axis *)
+Lemma axis_n_point (c p s : Q) : axis_n (c - p) (c + p) s = (Qfloor (2 * p / s) + 1)%Z.
+Proof.
+  unfold axis_n. f_equal. apply Qfloor_comp. unfold Qdiv. ring.
+Qed.
